@@ -49,6 +49,8 @@ E3_LC = {"test": "TestE3Lifecycle", "env": {"quick": {"VERIF_N": 150}, "thorough
          "shards": {"quick": 1, "thorough": 16}}
 E5_API = {"test": "TestE5API", "env": {"quick": {"VERIF_WORDS": 60}, "thorough": {"VERIF_WORDS": 300}},
           "shards": {"quick": 2, "thorough": 16}}
+E1_TR = {"test": "TestE1Transport", "env": {"quick": {"VERIF_N": 100}, "thorough": {"VERIF_N": 1200}}, "shards": {"quick": 1, "thorough": 4}}
+E5_OPT = {"test": "TestE5Options", "env": {"quick": {}, "thorough": {}}, "shards": {"quick": 1, "thorough": 1}}
 E6_RACE = {"test": "TestE6Race", "race": True, "env": {"quick": {"VERIF_SECONDS": 12}, "thorough": {"VERIF_SECONDS": 90}},
            "shards": {"quick": 2, "thorough": 8}, "timeout": {"quick": "10m", "thorough": "30m"}}
 TIES = [E3_AE, E3_RV, E3_EL, E3_LD]   # node-level correspondence every cluster-level statement rests on
@@ -258,10 +260,13 @@ for _p in ("C02", "C10", "C11"):
     PROPS[_p]["explanation"] += STORAGE_NOTE
     PROPS[_p]["deps"] = sorted(set(PROPS[_p].get("deps", []) + ["C13"]))
 PROPS["C08"]["deps"] = ["C13"]
+for _p in ("C15", "C17", "C18"):
+    PROPS[_p]["engines"] = PROPS[_p]["engines"] + [E5_OPT]
+for _p in ("C15", "C18"):
+    PROPS[_p]["engines"] = PROPS[_p]["engines"] + [E1_TR]   # Stop + Restart of a node shuts its transport down and runs it again
 PROPS["C08"]["engines"] = PROPS["C08"]["engines"] + [E3_EL, E3_LD, E3_LC, E2_SS]
 PROPS["C08"]["explanation"] += " The candidate's own term bump and self-vote (election(), the sole-voter shortcut, vote replies), the leader's step-down and a restart are covered by E3-election, E3-leader and E3-lifecycle with the same oracle (what is in memory when the section returns is what the last write to the term/vote storage in that section said)." + STORAGE_NOTE
 PROPS["C11"]["engines"] = PROPS["C11"]["engines"] + [E3_AE, E2_LOG]
-E1_TR = {"test": "TestE1Transport", "env": {"quick": {"VERIF_N": 100}, "thorough": {"VERIF_N": 1200}}, "shards": {"quick": 1, "thorough": 4}}
 PROPS["C19"]["engines"] = PROPS["C19"]["engines"] + [E1_TR, E2_LOG, E2_SS]
 PROPS["C19"]["deps"] = ["C12", "C13"]
 PROPS["C19"]["explanation"] += " The bundled transport itself: E1-transport sends generated requests between two real transports on loopback (incl. requests of several entries adding up to MiB and snapshot chunks up to and beyond the 4 MiB limit) and compares what the handler and the caller see with what was passed in. Storage read-back: the E2 engines (operation scripts on the real log / state / snapshot storages, reopened with the real constructors) report every state without an operation in flight whose read-back differs from what was written."
